@@ -112,9 +112,11 @@ theorem val_parity (d : Array UInt8) (p : Nat) (hp : 1 ≤ p) : val d p % 2 = di
   omega
 
 set_option maxRecDepth 10000 in
-/-- **`RoundedInteger`** of a well-formed, trimmed decimal whose `trunc` flag is off: round-half-even of its value -/
-theorem roundedInteger_spec (a : Decimal) (h : WF a) (htm : Trimmed a) (htr : a.trunc = false) (hdp : a.dp ≤ 19) :
-    ∃ q c, IsQ (aval a) 0 q ∧ IsC (aval a) 0 q c ∧ a.roundedInteger = roundHalfEven q c := by
+/-- **`RoundedInteger`** of a well-formed, trimmed decimal: round-half-even of its value — except that a tie goes up
+    when the `trunc` flag is on (the digits dropped were not all zero, so it is no tie) -/
+theorem roundedInteger_gen (a : Decimal) (h : WF a) (htm : Trimmed a) (hdp : a.dp ≤ 19) :
+    ∃ q c, IsQ (aval a) 0 q ∧ IsC (aval a) 0 q c ∧
+      a.roundedInteger = (if a.trunc = true ∧ c = 2 then q + 1 else roundHalfEven q c) := by
   have hD := val_lt a.d a.nd h.digits
   have hnot20 : ¬ a.dp > 20 := by omega
   simp only [Decimal.roundedInteger, if_neg hnot20]
@@ -209,10 +211,10 @@ theorem roundedInteger_spec (a : Decimal) (h : WF a) (htm : Trimmed a) (htr : a.
         have h3 : (10 : ℕ) ^ 19 + 1 < two64 := by unfold two64; norm_num
         omega
       -- the code's decision
-      have hsr : shouldRoundUp a a.dp = if dig a.d p = 5 ∧ p + 1 = a.nd then decide (0 < p ∧ dig a.d (p - 1) % 2 ≠ 0) else decide (5 ≤ dig a.d p) := by
+      have hsr : shouldRoundUp a a.dp = if dig a.d p = 5 ∧ p + 1 = a.nd then (a.trunc || decide (0 < p ∧ dig a.d (p - 1) % 2 ≠ 0)) else decide (5 ≤ dig a.d p) := by
         simp only [shouldRoundUp, hp]
         rw [if_neg (by simp; omega)]
-        simp only [Int.toNat_natCast, htr, Bool.false_eq_true, if_false]
+        simp only [Int.toNat_natCast]
         by_cases hcase : dig a.d p = 5 ∧ p + 1 = a.nd
         · rw [if_pos hcase]
           have hb53 : a.d[p]! = 53 := by
@@ -220,14 +222,18 @@ theorem roundedInteger_spec (a : Decimal) (h : WF a) (htm : Trimmed a) (htr : a.
             exact UInt8.toNat_inj.mp (by simpa using this)
           have hc1 : (a.d[p]! == 53 && p + 1 == a.nd) = true := by simp [hb53, hcase.2]
           rw [if_pos hc1]
-          by_cases hp0 : 0 < p
-          · simp only [dig, hp0, true_and, decide_eq_true_eq, Bool.and_eq_true, bne_iff_ne, ne_eq, decide_true, Bool.true_and]
-            by_cases hodd : (a.d[p - 1]!.toNat - 48) % 2 = 0
-            · simp [hodd]
-            · have : (a.d[p - 1]!.toNat - 48) % 2 = 1 := by omega
-              simp [this]
-          · have : p = 0 := by omega
-            subst this; simp
+          cases htr : a.trunc with
+          | true => simp
+          | false =>
+            simp only [Bool.false_eq_true, if_false, Bool.false_or]
+            by_cases hp0 : 0 < p
+            · simp only [dig, hp0, true_and, decide_eq_true_eq, Bool.and_eq_true, bne_iff_ne, ne_eq, decide_true, Bool.true_and]
+              by_cases hodd : (a.d[p - 1]!.toNat - 48) % 2 = 0
+              · simp [hodd]
+              · have : (a.d[p - 1]!.toNat - 48) % 2 = 1 := by omega
+                simp [this]
+            · have : p = 0 := by omega
+              subst this; simp
         · rw [if_neg hcase]
           have hc1 : (a.d[p]! == 53 && p + 1 == a.nd) = false := by
             by_cases h53 : a.d[p]! = 53
@@ -255,21 +261,24 @@ theorem roundedInteger_spec (a : Decimal) (h : WF a) (htm : Trimmed a) (htr : a.
         · right; right; left
           simp only [zpow_zero, mul_one]
           exact ⟨by first | rfl | trivial, by rw [hy, hhalf]⟩
-        · simp only [roundHalfEven]
-          by_cases hp0 : 0 < p
-          · have hpar := val_parity a.d p hp0
-            by_cases hodd : dig a.d (p - 1) % 2 = 0
-            · have hno : ¬ (0 < p ∧ dig a.d (p - 1) % 2 ≠ 0) := by simp [hodd]
-              rw [decide_eq_false hno]
-              have hv0 : val a.d p % 2 = 0 := by omega
-              simp [hv0]
-            · have hyes : (0 < p ∧ dig a.d (p - 1) % 2 ≠ 0) := ⟨hp0, hodd⟩
-              rw [decide_eq_true hyes]
-              have hv1 : val a.d p % 2 = 1 := by omega
-              simp [hv1, Nat.mod_eq_of_lt hn19]
-          · have : p = 0 := by omega
-            subst this
-            simp [val]
+        · cases htr : a.trunc with
+          | true => simp [Nat.mod_eq_of_lt hn19]
+          | false =>
+            simp only [Bool.false_or, Bool.false_eq_true, false_and, if_false, roundHalfEven]
+            by_cases hp0 : 0 < p
+            · have hpar := val_parity a.d p hp0
+              by_cases hodd : dig a.d (p - 1) % 2 = 0
+              · have hno : ¬ (0 < p ∧ dig a.d (p - 1) % 2 ≠ 0) := by simp [hodd]
+                rw [decide_eq_false hno]
+                have hv0 : val a.d p % 2 = 0 := by omega
+                simp [hv0]
+              · have hyes : (0 < p ∧ dig a.d (p - 1) % 2 ≠ 0) := ⟨hp0, hodd⟩
+                rw [decide_eq_true hyes]
+                have hv1 : val a.d p % 2 = 1 := by omega
+                simp [hv1, Nat.mod_eq_of_lt hn19]
+            · have : p = 0 := by omega
+              subst this
+              simp [val]
       · rw [if_neg hcase]
         by_cases h5 : 5 ≤ dig a.d p
         · -- above one half
@@ -298,5 +307,11 @@ theorem roundedInteger_spec (a : Decimal) (h : WF a) (htm : Trimmed a) (htr : a.
             simp only [zpow_zero, mul_one]
             exact ⟨by first | rfl | trivial, by rw [hy]; linarith, by rw [hy]; linarith⟩
           · simp [roundHalfEven, h5]
+
+/-- **`RoundedInteger`** of a well-formed, trimmed decimal whose `trunc` flag is off: round-half-even of its value -/
+theorem roundedInteger_spec (a : Decimal) (h : WF a) (htm : Trimmed a) (htr : a.trunc = false) (hdp : a.dp ≤ 19) :
+    ∃ q c, IsQ (aval a) 0 q ∧ IsC (aval a) 0 q c ∧ a.roundedInteger = roundHalfEven q c := by
+  obtain ⟨q, c, hq, hc, hr⟩ := roundedInteger_gen a h htm hdp
+  exact ⟨q, c, hq, hc, by rw [hr]; simp [htr]⟩
 
 end RJson.Dec
